@@ -27,8 +27,17 @@ impl CommandFdInjectionExt for std::process::Command {
         &mut self,
         open_files: impl Iterator<Item = (ShellFd, openfiles::OpenFile)>,
     ) -> Result<(), error::Error> {
+        // A descriptor number at or beyond the limit on open files cannot exist in the child;
+        // trying to create it there would only fail after the fork.
+        let max_fd = nix::sys::resource::getrlimit(nix::sys::resource::Resource::RLIMIT_NOFILE)
+            .map_or(u64::MAX, |(soft_limit, _)| soft_limit);
+
         let fd_mappings: Vec<FdMapping> = open_files
             .map(|(child_fd, open_file)| -> Result<FdMapping, error::Error> {
+                if u64::try_from(child_fd).map_or(true, |fd| fd >= max_fd) {
+                    return Err(error::ErrorKind::BadFileDescriptor(child_fd).into());
+                }
+
                 let parent_fd = open_file.try_clone_to_owned()?;
                 Ok(FdMapping {
                     child_fd,
